@@ -64,7 +64,7 @@ def verify(name):
                       "--deselect", "xrspatial/tests/test_viewshed.py::test_viewshed"] + tests, cwd=wt, env=env, timeout=3000)
         tail = out.strip().splitlines()[-1] if out.strip() else ""
         print(f"[{name}] tests {tests}: exit {rc}: {tail}")
-        if rc != 0:
+        if rc not in (0, 5):       # 5 = nothing collected after the deselection (test_viewshed.py)
             print(out[-1500:])
             ok = False
         meta["verified"] = dict(demo_without=rc0, demo_with=rc1, tests_exit=rc, tests_tail=tail,
